@@ -276,6 +276,14 @@ struct SortEngine : Engine {
 				l += b;
 				if (r.chance(1, 2))
 					l += " " + lit(r, (size_t)r.below(20));
+				if (SIM_NL <= 64 && r.chance(1, 12)) {
+					/* longer than the reader window: the window grows while the line is read */
+					std::string pad = lit(r, (size_t)r.range(60, 400));
+					if (r.chance(1, 2))
+						l += " " + pad;
+					else
+						l = pad + " " + l;
+				}
 				if (pool.size() < 16)
 					pool.push_back(l);
 				/* a stamp at the start of the line, and right behind it lines whose stamps extend it textually */
@@ -316,6 +324,9 @@ struct SortEngine : Engine {
 			a.data = in.substr(0, cut);
 			b.path = "/sim/in/b.txt";
 			b.data = in.substr(cut);
+			/* a file need not end in a newline; its last line ends with the file all the same */
+			if (r.chance(1, 3) && a.data.size() > 1 && a.data.back() == '\n' && (a.data.size() < 2 || a.data[a.data.size() - 2] != '\r'))
+				a.data.pop_back();
 			p.files = {a, b};
 			p.argv.push_back(a.path);
 			p.argv.push_back(b.path);
